@@ -603,4 +603,12 @@ def SameTarget (env : Env) (objs : List Obj) (sf : WState) (ls : LState) : PLeaf
     ∃ (o : Obj) (oid : Oid), objs[t]? = some o ∧ curOid o sf t = some oid ∧
       lf = .wref (if curJar env o sf t = env.own then none else some (jarDb env (curJar env o sf t))) oid
 
+/-- the database after the commit: every stored record under the oid its object got -/
+def putRecords (db : Db) (objs : List Obj) (sf : WState) (out : List (H × Record)) (base : Store) :
+    Store :=
+  out.foldr (fun hr st =>
+    match finalOid objs sf hr.1 with
+    | some o => ((db, o), hr.2) :: st
+    | none => st) base
+
 end ZodbModel.Refs
